@@ -23,6 +23,7 @@ import (
 	"strconv"
 	"strings"
 	"sync"
+	"sync/atomic"
 	"time"
 
 	"verifharness/core"
@@ -103,6 +104,7 @@ type LogEv struct {
 	Xid   string   `json:"xid,omitempty"`
 	Call  int      `json:"call,omitempty"`
 	W     int      `json:"w,omitempty"`
+	Bad   []string `json:"bad,omitempty"` // call: records whose content is not the change PostgreSQL sent at that position
 	AtSec float64  `json:"t,omitempty"`
 }
 
@@ -127,6 +129,7 @@ type world struct {
 	errInfo       []errInfo
 	dataSent      []string // kind of every data message sent so far: begin/change/commit
 	commits       int      // COMMIT messages sent so far
+	floor         uint64   // highest commit position of a transaction the fake server has started to stream
 	deliveredXids map[string]bool
 }
 
@@ -146,7 +149,16 @@ func (w *world) add(e LogEv) {
 		return // an idle client repeats its last acknowledgement every few milliseconds
 	}
 	w.log = append(w.log, e)
+	if streamEvents {
+		// child process: every event goes to the parent at once, so that a runtime crash of the
+		// pipeline under test (see the note on time.Ticker) loses nothing that was observed before it
+		b, _ := json.Marshal(e)
+		os.Stdout.Write(append(append([]byte("EV "), b...), '\n'))
+	}
 }
+
+var streamEvents bool
+var harnessCancelled int32
 
 // ---------- fake PostgreSQL connection (adaptive: streams what the walsender would) ----------
 type pgMgr struct{ w *world }
@@ -157,6 +169,8 @@ type pgConn struct {
 	queue  []pgproto3.BackendMessage // remaining messages of this connection's stream
 	pauses []bool
 	kinds  []string // keepalive / begin / change / commit:<xid>
+	commit []uint64 // commit position of the transaction each message belongs to (0: keepalive)
+	rbuf   []byte   // the connection's reused read buffer
 	first  bool
 }
 
@@ -184,6 +198,7 @@ func (w *world) newConn(start uint64, veryFirst bool) *pgConn {
 		c.queue = append(c.queue, keepalive(w.c.S0))
 		c.pauses = append(c.pauses, false)
 		c.kinds = append(c.kinds, "keepalive")
+		c.commit = append(c.commit, 0)
 	}
 	for _, t := range w.c.Txns {
 		if t.Commit <= start {
@@ -192,6 +207,7 @@ func (w *world) newConn(start uint64, veryFirst bool) *pgConn {
 		c.queue = append(c.queue, xlog(t.Begin, "BEGIN "+t.Xid))
 		c.pauses = append(c.pauses, false)
 		c.kinds = append(c.kinds, "begin")
+		c.commit = append(c.commit, t.Commit)
 		for _, ch := range t.Changes {
 			payload := fmt.Sprintf("table %s: INSERT: id[integer]:%d", ch.Table, ch.Lsn)
 			if ch.Big {
@@ -200,10 +216,12 @@ func (w *world) newConn(start uint64, veryFirst bool) *pgConn {
 			c.queue = append(c.queue, xlog(ch.Lsn, payload))
 			c.pauses = append(c.pauses, ch.Pause)
 			c.kinds = append(c.kinds, "change")
+			c.commit = append(c.commit, t.Commit)
 		}
 		c.queue = append(c.queue, xlog(t.Commit, "COMMIT "+t.Xid))
 		c.pauses = append(c.pauses, true)
 		c.kinds = append(c.kinds, "commit:"+t.Xid)
+		c.commit = append(c.commit, t.Commit)
 	}
 	return c
 }
@@ -268,6 +286,11 @@ func (c *pgConn) ReceiveMessage(ctx context.Context) (pgproto3.BackendMessage, e
 	}
 	if x, ok := w.errAt[w.sent]; ok {
 		delete(w.errAt, w.sent)
+		// walsender contract: IDENTIFY_SYSTEM reports the server's current flush position, which is
+		// never behind the commit of a transaction it has already started to stream
+		if x < w.floor {
+			x = w.floor
+		}
 		w.identify = x
 		class := "inside-transaction"
 		if w.commits == 0 {
@@ -304,6 +327,10 @@ func (c *pgConn) ReceiveMessage(ctx context.Context) (pgproto3.BackendMessage, e
 	c.pauses = c.pauses[1:]
 	kd := c.kinds[0]
 	c.kinds = c.kinds[1:]
+	if c.commit[0] > w.floor {
+		w.floor = c.commit[0]
+	}
+	c.commit = c.commit[1:]
 	if kd != "keepalive" {
 		if strings.HasPrefix(kd, "commit:") {
 			w.commits++
@@ -318,6 +345,20 @@ func (c *pgConn) ReceiveMessage(ctx context.Context) (pgproto3.BackendMessage, e
 		pendingPause[c] = true
 		pendingMu.Unlock()
 	}
+	// pgproto3's contract: a received message is valid only until the next Receive; the frontend reuses
+	// its read buffer.  The fake does the same: every CopyData aliases one per-connection buffer, which is
+	// scribbled over before the next message is written into it.
+	if cd, ok := m.(*pgproto3.CopyData); ok {
+		for i := range c.rbuf {
+			c.rbuf[i] = '#'
+		}
+		if cap(c.rbuf) < len(cd.Data) {
+			c.rbuf = make([]byte, len(cd.Data), 2*len(cd.Data)+64)
+		}
+		c.rbuf = c.rbuf[:len(cd.Data)]
+		copy(c.rbuf, cd.Data)
+		return &pgproto3.CopyData{Data: c.rbuf}, nil
+	}
 	return m, nil
 }
 
@@ -326,6 +367,42 @@ type fakeKinesis struct {
 	kinesisiface.KinesisAPI
 	w      *world
 	worker int
+}
+
+// recContent checks a sink record against the change PostgreSQL sent at its position: table, operation
+// and the single column id[integer]:<position> (the payloads the fake server generates)
+func recContent(c Case, data []byte) string {
+	var r struct {
+		Lsn     string `json:"lsn"`
+		Table   string `json:"table"`
+		Op      string `json:"operation"`
+		Columns map[string]struct {
+			New *struct {
+				V string `json:"v"`
+				T string `json:"t"`
+			} `json:"new"`
+		} `json:"columns"`
+	}
+	if err := json.Unmarshal(data, &r); err != nil {
+		return "not JSON: " + err.Error()
+	}
+	l, _ := recLsn(data)
+	for _, t := range c.Txns {
+		for _, ch := range t.Changes {
+			if ch.Lsn != l {
+				continue
+			}
+			if r.Table != ch.Table || r.Op != "INSERT" {
+				return fmt.Sprintf("position %d is an INSERT into %s, the record says %s on %q", l, ch.Table, r.Op, r.Table)
+			}
+			id, ok := r.Columns["id"]
+			if !ok || id.New == nil || id.New.V != strconv.FormatUint(l, 10) || id.New.T != "integer" {
+				return fmt.Sprintf("position %d carries id[integer]:%d, the record's columns are %s", l, l, string(data))
+			}
+			return ""
+		}
+	}
+	return fmt.Sprintf("no change was sent at position %d (record %.200s)", l, string(data))
 }
 
 func recLsn(data []byte) (uint64, string) {
@@ -356,12 +433,16 @@ func (f *fakeKinesis) PutRecords(in *kinesis.PutRecordsInput) (*kinesis.PutRecor
 	w.mu.Unlock()
 	var lsns []uint64
 	var keys []string
+	var badRecs []string
 	for _, r := range in.Records {
 		l, k := recLsn(r.Data)
 		lsns = append(lsns, l)
 		keys = append(keys, k)
+		if b := recContent(w.c, r.Data); b != "" {
+			badRecs = append(badRecs, b)
+		}
 	}
-	w.add(LogEv{K: "call", Call: call, W: f.worker, Lsns: lsns, Keys: keys})
+	w.add(LogEv{K: "call", Call: call, W: f.worker, Lsns: lsns, Keys: keys, Bad: badRecs})
 	if permanent {
 		if call == w.c.Fault.At {
 			w.add(LogEv{K: "fault"})
@@ -409,6 +490,27 @@ type result struct {
 
 var provisional func(result)
 
+type lockedBuf struct {
+	mu sync.Mutex
+	b  bytes.Buffer
+}
+
+func (l *lockedBuf) Write(p []byte) (int, error) {
+	l.mu.Lock()
+	defer l.mu.Unlock()
+	return l.b.Write(p)
+}
+func (l *lockedBuf) String() string {
+	l.mu.Lock()
+	defer l.mu.Unlock()
+	return l.b.String()
+}
+func (l *lockedBuf) contains(x string) bool {
+	l.mu.Lock()
+	defer l.mu.Unlock()
+	return bytes.Contains(l.b.Bytes(), []byte(x))
+}
+
 // runIsolated runs one case in a child process (this binary with VERIF_PIPE_CASE set): a stage
 // goroutine that spins or crashes during shutdown then dies with the child.
 func runIsolated(c Case) result {
@@ -421,12 +523,43 @@ func runIsolated(c Case) result {
 	defer cancel()
 	cmd := exec.CommandContext(ctx, exe)
 	cmd.Env = append(os.Environ(), "VERIF_PIPE_CASE="+string(b))
-	var out bytes.Buffer
+	var out lockedBuf
+	var errb bytes.Buffer
 	cmd.Stdout = &out
-	cmd.Stderr = nil
-	_ = cmd.Run()
+	cmd.Stderr = &errb
+	if err := cmd.Start(); err != nil {
+		return result{Infra: err.Error()}
+	}
+	exited := make(chan struct{})
+	go func() { _ = cmd.Wait(); close(exited) }()
+	// a child whose runtime is wedged by the stopping pipeline (see the note on time.Ticker) never exits:
+	// once it has reported its pre-shutdown result it gets 6 more seconds, not the whole 25
+	var reportedAt time.Time
+wait:
+	for {
+		select {
+		case <-exited:
+			break wait
+		case <-time.After(100 * time.Millisecond):
+			if reportedAt.IsZero() && out.contains("RESULT ") {
+				reportedAt = time.Now()
+			}
+			if !reportedAt.IsZero() && time.Since(reportedAt) > 6*time.Second {
+				_ = cmd.Process.Kill()
+				<-exited
+				break wait
+			}
+		}
+	}
 	var last *result
+	var evs []LogEv
 	for _, line := range strings.Split(out.String(), "\n") {
+		if strings.HasPrefix(line, "EV ") {
+			var e LogEv
+			if json.Unmarshal([]byte(line[3:]), &e) == nil {
+				evs = append(evs, e)
+			}
+		}
 		if !strings.HasPrefix(line, "RESULT ") {
 			continue
 		}
@@ -436,8 +569,27 @@ func runIsolated(c Case) result {
 			last = &rr
 		}
 	}
+	if last == nil && c.Fault != nil {
+		// the child died (runtime crash of the pipeline under test while it was stopping) before it could
+		// report: for a fault-injection case the streamed events are the whole observation the monitor needs
+		terminated := false
+		var ack uint64
+		for _, e := range evs {
+			terminated = terminated || e.K == "terminate"
+			if e.K == "ack" && e.Lsn > ack {
+				ack = e.Lsn
+			}
+		}
+		if terminated {
+			return result{Log: evs, Terminated: true, TermAfter: termAfter(evs), LedgerLeft: -1, IndexLeft: -1, LastAck: ack}
+		}
+	}
 	if last == nil {
-		return result{Infra: "child produced no result"}
+		e := errb.String()
+		if len(e) > 1500 {
+			e = e[:1500]
+		}
+		return result{Infra: "child produced no result: " + e}
 	}
 	return *last
 }
@@ -456,6 +608,7 @@ func init() {
 		fmt.Fprintf(os.Stdout, "RESULT %s\n", b)
 	}
 	provisional = emit
+	streamEvents = true
 	r := run(c)
 	r.Final = true
 	emit(r)
@@ -577,6 +730,14 @@ func run(c Case) result {
 		defer w.mu.Unlock()
 		return time.Since(w.lastCall) > d && len(w.log) > 0 && time.Since(w.t0.Add(time.Duration(w.log[len(w.log)-1].AtSec*float64(time.Second)))) > d/2
 	}
+	// the moment the pipeline cancels its own termination context is logged by a watcher (the main
+	// loop only polls); harnessCancelled tells it apart from the harness's own cancellation
+	go func() {
+		<-sh.TerminateCtx.Done()
+		if atomic.LoadInt32(&harnessCancelled) == 0 {
+			w.add(LogEv{K: "terminate"})
+		}
+	}()
 	var res result
 	deadline := time.Now().Add(6 * time.Second)
 	// phase 1: run until everything that is not held has happened (or the pipeline stopped itself)
@@ -589,15 +750,15 @@ func run(c Case) result {
 		if res.Terminated {
 			break
 		}
-		if lastAck() >= lastCommit && len(c.Hold) == 0 {
-			break
-		}
 		w.mu.Lock()
 		allSent := true
 		if w.conn != nil {
 			allSent = len(w.conn.queue) == 0
 		}
 		w.mu.Unlock()
+		if allSent && lastAck() >= lastCommit && len(c.Hold) == 0 {
+			break
+		}
 		if allSent && quiet(60*time.Millisecond) {
 			break
 		}
@@ -605,7 +766,10 @@ func run(c Case) result {
 	}
 	// phase 2: release the held sink calls one by one, letting the pipeline settle in between
 	if !res.Terminated {
-		hs := append([]int{}, c.Hold...)
+		hs := []int{}
+		for h := range w.hold {
+			hs = append(hs, h)
+		}
 		sort.Ints(hs)
 		for _, h := range hs {
 			close(w.hold[h])
@@ -636,7 +800,19 @@ func run(c Case) result {
 		}
 	}
 	if res.Terminated {
-		w.add(LogEv{K: "terminate"})
+		// let the watcher log the cancellation
+		for k := 0; k < 200; k++ {
+			w.mu.Lock()
+			has := false
+			for _, e := range w.log {
+				has = has || e.K == "terminate"
+			}
+			w.mu.Unlock()
+			if has {
+				break
+			}
+			time.Sleep(time.Millisecond)
+		}
 	}
 	res.LastAck = lastAck()
 	if c.Fault == nil && !res.Terminated {
@@ -654,6 +830,7 @@ func run(c Case) result {
 	if provisional != nil {
 		provisional(res)
 	}
+	atomic.StoreInt32(&harnessCancelled, 1)
 	sh.CancelFunc()
 	select {
 	case <-clientDone:
@@ -677,16 +854,22 @@ func run(c Case) result {
 	w.mu.Lock()
 	res.Log = append([]LogEv{}, w.log...)
 	w.mu.Unlock()
-	for i := len(res.Log) - 1; i >= 0; i-- {
-		if res.Log[i].K == "terminate" {
+	res.TermAfter = termAfter(res.Log)
+	return res
+}
+
+// termAfter: seconds from the first injected fault to the pipeline's own cancellation
+func termAfter(log []LogEv) float64 {
+	for i := len(log) - 1; i >= 0; i-- {
+		if log[i].K == "terminate" {
 			for j := 0; j < i; j++ {
-				if res.Log[j].K == "fault" {
-					res.TermAfter = res.Log[i].AtSec - res.Log[j].AtSec
+				if log[j].K == "fault" {
+					return log[i].AtSec - log[j].AtSec
 				}
 			}
 		}
 	}
-	return res
+	return 0
 }
 
 // ---------- monitors ----------
@@ -734,6 +917,51 @@ func monitor(c Case, r result) []core.Violation {
 			}
 		}
 		return false
+	}
+	acceptCount := map[uint64]int{}
+	for _, e := range r.Log {
+		if e.K == "call" {
+			for _, b := range e.Bad {
+				add("C04", "sink-record-not-the-change-sent", b)
+				break
+			}
+		}
+		if e.K == "accept" {
+			for _, l := range e.Lsns {
+				acceptCount[l]++
+			}
+		}
+	}
+	if len(c.ErrResp) == 0 && c.Fault == nil && !r.Terminated && r.Final {
+		var lc uint64
+		for _, t := range c.Txns {
+			if t.Commit > lc {
+				lc = t.Commit
+			}
+		}
+		if r.LastAck >= lc {
+			// everything was acknowledged: every change that passes the filter is in the sink
+			for _, t := range c.Txns {
+				for _, ch := range t.Changes {
+					if passes(c, ch.Table) && !ch.Big && acceptCount[ch.Lsn] == 0 {
+						add("C04", "change-never-reached-the-sink", fmt.Sprintf("everything is acknowledged (%d) but the change at %d of transaction %s was never accepted by the sink", r.LastAck, ch.Lsn, t.Xid))
+					}
+				}
+			}
+		}
+	}
+	if len(c.Breaks) == 0 && len(c.ErrResp) == 0 && c.Fault == nil && len(c.FailFirst) == 0 && !r.Terminated {
+		// undisturbed run: exactly once
+		for _, t := range c.Txns {
+			for _, ch := range t.Changes {
+				if passes(c, ch.Table) && !ch.Big && acceptCount[ch.Lsn] > 1 {
+					add("C04", "change-accepted-twice-in-undisturbed-run", fmt.Sprintf("the change at %d was accepted by the sink %d times although nothing was retried or redelivered", ch.Lsn, acceptCount[ch.Lsn]))
+				}
+				if (!passes(c, ch.Table) || ch.Big) && acceptCount[ch.Lsn] > 0 {
+					add("C04", "filtered-or-dropped-change-reached-the-sink", fmt.Sprintf("the change at %d (table %s, oversize %v) reached the sink", ch.Lsn, ch.Table, ch.Big))
+				}
+			}
+		}
 	}
 	for i, e := range r.Log {
 		switch e.K {
@@ -841,6 +1069,47 @@ func monitor(c Case, r result) []core.Violation {
 }
 
 // ---------- generators ----------
+
+// interleave redistributes the positions of two consecutive transactions a, b (a commits first): every
+// position stays unique, each transaction's own positions stay increasing, b's COMMIT stays the highest
+func interleave(rng *rand.Rand, a, b *Txn) {
+	var l []uint64
+	l = append(l, a.Begin)
+	for _, ch := range a.Changes {
+		l = append(l, ch.Lsn)
+	}
+	l = append(l, a.Commit, b.Begin)
+	for _, ch := range b.Changes {
+		l = append(l, ch.Lsn)
+	}
+	l = append(l, b.Commit)
+	na := 2 + len(a.Changes)
+	n := len(l)
+	perm := rng.Perm(n - 1)[:na]
+	sort.Ints(perm)
+	inA := map[int]bool{}
+	for _, i := range perm {
+		inA[i] = true
+	}
+	var la, lb []uint64
+	for i, x := range l {
+		if inA[i] {
+			la = append(la, x)
+		} else {
+			lb = append(lb, x)
+		}
+	}
+	a.Begin = la[0]
+	for i := range a.Changes {
+		a.Changes[i].Lsn = la[1+i]
+	}
+	a.Commit = la[len(la)-1]
+	b.Begin = lb[0]
+	for i := range b.Changes {
+		b.Changes[i].Lsn = lb[1+i]
+	}
+	b.Commit = lb[len(lb)-1]
+}
 func genCase(rng *rand.Rand) Case {
 	c := Case{Mode: "gen", Workers: 1 + rng.Intn(4), Routing: []string{"round-robin", "partition"}[rng.Intn(2)],
 		Method: []string{"none", "tablename", "transaction", "transaction-bucket"}[rng.Intn(4)], Buckets: 1 + rng.Intn(4), S0: uint64(1000 + rng.Intn(500))}
@@ -862,6 +1131,15 @@ func genCase(rng *rand.Rand) Case {
 		t.Commit = lsn
 		c.Txns = append(c.Txns, t)
 		nmsg += 2 + len(t.Changes)
+	}
+	if rng.Intn(2) == 0 {
+		// concurrent transactions: PostgreSQL streams in commit order, BEGIN and change positions of
+		// neighbouring transactions interleave (only the COMMIT positions are ordered)
+		for i := 0; i+1 < len(c.Txns); i++ {
+			if rng.Intn(2) == 0 {
+				interleave(rng, &c.Txns[i], &c.Txns[i+1])
+			}
+		}
 	}
 	if rng.Intn(8) == 0 && len(c.Txns) > 0 {
 		// one over-size row (dropped by the Kinesis batch, still counted) next to ordinary rows
@@ -975,6 +1253,10 @@ func init() {
 			r := results[i]
 			if r.Infra != "" {
 				core.Bump(rep, "dropped:child-process-failed")
+				if len(rep.Notes) < 3 {
+					cj, _ := json.Marshal(c)
+					rep.Notes = append(rep.Notes, "dropped case "+string(cj)+": "+r.Infra)
+				}
 				continue
 			}
 			if !r.Final {
